@@ -85,3 +85,45 @@ class _statement_roundtrip:
         return out
 
     def cover(e): return {}
+
+
+# ------------------------------------------------------------------------------------------------ graph slot (quads)
+from pyvc.contract import OBJ as _OBJ  # noqa: E402
+from .decode import slot_spec  # noqa: E402
+from .encode import graph_in_slot, wf_te  # noqa: E402
+from .lookup import R_enc  # noqa: E402
+
+
+@lemma("graph_slot_roundtrip", serves=["C01", "C03", "C04"], src='''
+def graph_slot_roundtrip(row, O, E, D, g):
+    return None
+''')
+class _graph_slot_roundtrip:
+    """The same composition for the graph slot of a quad / graph start, at the level of the term encoder's contract
+    (`graph-in-slot` of GenericSinkTermEncoder.encode_graph): IF the reader's tables hold the entries of the writer's
+    tables after the call, its delta bases are the writer's from before the call (O), and the graph name g (IRI, blank
+    node, literal or the default graph) was written into the row's graph group as the contract says, THEN the reader's
+    spec decoding of the graph group is valid and gives g (normalised)."""
+    params = {"row": MSG("RdfQuad"), "O": _OBJ(GENC), "E": _OBJ(GENC), "D": OBJ(DECODER + "@quads"), "g": ADTS("gterm")}
+
+    def requires(e):
+        O, E, D, st, g = e.O, e.E, e.D, e.row, e.g
+        en = E.prefixes.lookup.max_size > 0
+        return And(wf_te(E),
+                   same_entries(E.names.T, D.names.T), same_entries(E.prefixes.T, D.prefixes.T),
+                   same_entries(E.datatypes.T, D.datatypes.T),
+                   D.names.T.lr == O.names.T.lr, D.prefixes.T.lr == O.prefixes.T.lr,
+                   O.names.T.lr >= 0, O.prefixes.T.lr >= 0,
+                   O.prefixes.lookup.max_size == E.prefixes.lookup.max_size,
+                   Implies(Not(en), O.prefixes.T.lr == 0),
+                   Or(flat(g), GTerm.is_DefaultGraph(g)),
+                   graph_in_slot(st, g, E, O))
+
+    def ensures(e):
+        sp = slot_spec(e.row, "graph", e.D)
+        g = e.g
+        out = {"the-graph-group-is-set": Not(sp["unset"])}
+        for kind, rec in (("iri", GTerm.is_IRI), ("bnode", GTerm.is_BNode), ("literal", GTerm.is_Lit), ("default", GTerm.is_DefaultGraph)):
+            cond, valid, term = sp[kind][0], sp[kind][1], sp[kind][2]
+            out[f"{kind}-graph-name-read-back-as-written"] = Implies(rec(g), And(cond, valid, term == norm_term(g)))
+        return out
